@@ -122,8 +122,10 @@ package resharing
 //@   loop 3 invariant forall k in 0..c+1 :: (validPoint(Vc[k]) && Vc[k].curve == round.ReSharingParameters.Parameters.ec)
 //@   loop 4 invariant wfIDs(round.ReSharingParameters.Parameters.parties.partyIDs) && wfIDs(round.ReSharingParameters.newParties.partyIDs) && round.save.EDDSAPub != nil && wfPoint(round.save.EDDSAPub) && rsNew(round.ReSharingParameters) && 0 <= j && j <= rsNewN(round) && len(Vc) == round.ReSharingParameters.newThreshold + 1 && fresh(Vc) && fresh(newKs) && len(newKs) == j && cap(newKs) == rsNewN(round) && fresh(newBigXjs) && len(newBigXjs) == rsNewN(round) && fresh(culprits) && newXi != nil && modQ != nil && val(modQ) == curveN(round.ReSharingParameters.Parameters.ec) && shareIntact(round)
 //@   loop 4 invariant forall k in 0..len(Vc) :: (validPoint(Vc[k]) && Vc[k].curve == round.ReSharingParameters.Parameters.ec)
+//@   loop 4 invariant [key-list-is-not-a-coordinate-pair] forall k in 0..len(Vc) :: arr(Vc[k].coords) != arr(newKs)
 //@   loop 5 invariant wfIDs(round.ReSharingParameters.Parameters.parties.partyIDs) && wfIDs(round.ReSharingParameters.newParties.partyIDs) && round.save.EDDSAPub != nil && wfPoint(round.save.EDDSAPub) && rsNew(round.ReSharingParameters) && 0 <= j && j < rsNewN(round) && 1 <= c && c <= round.ReSharingParameters.newThreshold + 1 && len(Vc) == round.ReSharingParameters.newThreshold + 1 && fresh(Vc) && fresh(newKs) && len(newKs) == j + 1 && cap(newKs) == rsNewN(round) && fresh(newBigXjs) && len(newBigXjs) == rsNewN(round) && fresh(culprits) && newXi != nil && modQ != nil && val(modQ) == curveN(round.ReSharingParameters.Parameters.ec) && shareIntact(round)
 //@   loop 5 invariant forall k in 0..len(Vc) :: (validPoint(Vc[k]) && Vc[k].curve == round.ReSharingParameters.Parameters.ec)
+//@   loop 5 invariant [key-list-is-not-a-coordinate-pair] forall k in 0..len(Vc) :: arr(Vc[k].coords) != arr(newKs)
 //@   loop 5 invariant kj != nil && val(kj) >= 0 && z != nil && val(z) >= 0 && Pj != nil && validPoint(newBigXj) && newBigXj.curve == round.ReSharingParameters.Parameters.ec
 
 //@ func (*round5).Start
